@@ -213,29 +213,50 @@ fn c09_inverse(lo: i64, hi: i64, seed: u64, out: &mut Out) {
     let (yy, m, d) = dates[(lcg(&mut rng) as usize) % dates.len()];
     let h = (lcg(&mut rng) % 24) as usize;
     let t = SolarTime::from_ymd_hms(yy as isize, m as usize, d as usize, h, (lcg(&mut rng) % 60) as usize, 0);
-    // the double-hour [start, end) around t
-    let hh = if h % 2 == 1 { h } else { (h + 23) % 24 };
-    let start = { let mut s = SolarTime::from_ymd_hms(yy as isize, m as usize, d as usize, hh, 0, 0); if h == 0 { s = s.next(-86400); } s };
-    let end = start.next(7200);
-    // skip if a Jie instant falls inside
-    let term = t.get_term();
-    let near: Vec<SolarTime> = [term.clone(), term.next(1)].iter().filter(|x| x.is_jie()).map(|x| x.get_julian_day().get_solar_time()).collect();
-    if near.iter().any(|j| !j.is_before(start) && j.is_before(end)) { continue; }
-    let ec = t.get_lunar_hour().get_eight_char();
     let span = 1 + (lcg(&mut rng) % 3) as isize;
     let (a, b) = (yy as isize - 60 * (lcg(&mut rng) % 2) as isize - (lcg(&mut rng) % 2) as isize, yy as isize + 60 * (span - 1));
-    out.evaluations += 1;
-    match guard(|| ec.get_solar_times(a, b)) {
-      Some(ts) => {
-        for r in ts.iter() {
-          if r.get_lunar_hour().get_eight_char() != ec { out.fail(format!("inv_sound:{}", t), format!("returned {} has {}", r, r.get_lunar_hour().get_eight_char())); }
-          if r.get_year() < a || r.get_year() > b + 1 { out.fail(format!("inv_range:{}", t), format!("returned {} outside {}..{}", r, a, b)); }
-        }
-        if !ts.iter().any(|r| !r.is_before(start) && r.is_before(end)) { out.fail(format!("inv_complete:{}", t), format!("{} in {}..{}: none of {} results in the double-hour", ec, a, b, ts.len())); }
-      }
-      None => out.fail(format!("inv:{}", t), "panic".into()),
+    // probes: (instant, first year, last year of the search range)
+    let mut probes: Vec<(SolarTime, isize, isize)> = vec![(t, a, b), (t, yy as isize, yy as isize)];
+    // the ends of a solar-term month: three hours after a Jie instant and three hours before the next one (the day offset from
+    // the Jie day to the sought day is then 0 resp. as large as it gets), each searched in an enclosing range and in
+    // exactly its own year
+    let ji = 1 + 2 * (lcg(&mut rng) % 12) as isize;
+    let j0 = SolarTerm::from_index(yy as isize, ji);
+    let (t0, t1) = (j0.get_julian_day().get_solar_time().next(3 * 3600), j0.next(2).get_julian_day().get_solar_time().next(-3 * 3600));
+    for tt in [t0, t1] {
+      if tt.get_year() < 62 || tt.get_year() > 9870 { continue; }
+      probes.push((tt, tt.get_year() - (lcg(&mut rng) % 2) as isize, tt.get_year() + 60 * (lcg(&mut rng) % 2) as isize));
+      probes.push((tt, tt.get_year(), tt.get_year()));
     }
-    if y <= lo + 5 { out.sample(format!("{} -> {} searched in {}..{}", t, ec, a, b)); }
+    // an instant before the start of spring of its civil year (its year pillar is the previous year's), searched from its own year
+    let early = SolarTime::from_ymd_hms(yy as isize, 1, 1 + (lcg(&mut rng) % 28) as usize, (lcg(&mut rng) % 24) as usize, 30, 0);
+    probes.push((early, yy as isize, yy as isize + 60 * (lcg(&mut rng) % 2) as isize));
+    for (t, a, b) in probes {
+      let h = t.get_hour();
+      // the double-hour [start, end) around t
+      let hh = if h % 2 == 1 { h } else { (h + 23) % 24 };
+      let start = { let mut s = SolarTime::from_ymd_hms(t.get_year(), t.get_month(), t.get_day(), hh, 0, 0); if h == 0 { s = s.next(-86400); } s };
+      let end = start.next(7200);
+      // skip if a Jie instant falls inside
+      let term = t.get_term();
+      let near: Vec<SolarTime> = [term.clone(), term.next(1)].iter().filter(|x| x.is_jie()).map(|x| x.get_julian_day().get_solar_time()).collect();
+      if near.iter().any(|j| !j.is_before(start) && j.is_before(end)) { continue; }
+      // a double-hour that starts in the previous civil year is not promised for a range starting in this one
+      if start.get_year() < a { continue; }
+      let ec = t.get_lunar_hour().get_eight_char();
+      out.evaluations += 1;
+      match guard(|| ec.get_solar_times(a, b)) {
+        Some(ts) => {
+          for r in ts.iter() {
+            if r.get_lunar_hour().get_eight_char() != ec { out.fail(format!("inv_sound:{}", t), format!("returned {} has {}", r, r.get_lunar_hour().get_eight_char())); }
+            if r.get_year() < a || r.get_year() > b + 1 { out.fail(format!("inv_range:{}", t), format!("returned {} outside {}..{}", r, a, b)); }
+          }
+          if !ts.iter().any(|r| !r.is_before(start) && r.is_before(end)) { out.fail(format!("inv_complete:{}:{}:{}", t, a, b), format!("{} in {}..{}: none of {} results in the double-hour", ec, a, b, ts.len())); }
+        }
+        None => out.fail(format!("inv:{}", t), "panic".into()),
+      }
+      if y <= lo + 5 { out.sample(format!("{} -> {} searched in {}..{}", t, ec, a, b)); }
+    }
   }
 }
 
